@@ -426,6 +426,17 @@ Theorem observable_target_spec q la m :
   = GI "OBSERVABLE_INCLUDE" [GT_rec (Some (m - (la + 1)))] [Some 0].
 Proof. reflexivity. Qed.
 
+(* an observable that names no measurement (either field None) is still declared: OBSERVABLE_INCLUDE(0) without target
+   (since /repo 744f678; before, the index argument was missing and Stim refused the instruction: finding F16) *)
+Theorem observable_untargeted_spec q la m : (la = None \/ m = None) ->
+  LogicalObservableOperation_to_stim_instruction (Some q) la m = GI "OBSERVABLE_INCLUDE" [] [Some 0].
+Proof. intros [-> | ->]; [|destruct la]; reflexivity. Qed.
+
+Example observable_untargeted_exports :
+  to_stim [Leaf (MkLeaf K_DispersiveMeasure [0] []); Leaf (MkLeaf K_LogicalObservableOperation [0] [None; None])]
+  = Some [SI "M" [] [TQ 0]; SI "OBSERVABLE_INCLUDE" [0] []].
+Proof. vm_compute. reflexivity. Qed.
+
 (* ------------------------------------------------------------------ non-vacuity *)
 Definition ex_tree : list item :=
   [Leaf (MkLeaf K_Rx180 [0] []); Leaf (MkLeaf K_Rx180 [1] []);
